@@ -20,7 +20,8 @@ theorem response_names_pinned : Generated.C08.responseNames = names [stsName] :=
 (`r.Header["X-Forwarded-For"]`) and `Get/Set` address the same entry, as the model assumes (`get1`/`put`
 on the literal). -/
 theorem header_literals_canonical :
-    (Generated.C08.addHeadersNames ++ Generated.C08.schemeNames ++ Generated.C08.responseNames).all
+    (Generated.C08.addHeadersNames ++ Generated.C08.schemeNames ++ Generated.C08.responseNames ++
+      Generated.C08.managedHeaders ++ Generated.C08.protectHeaderNames).all
       (fun n => canonicalKey n.toList == n.toList) = true := by decide
 
 /-- The configured client-IP header is exempted exactly for the two names with dedicated rules. -/
@@ -45,6 +46,16 @@ the model's `isWebsocket`. -/
 theorem websocket_compare_addHeaders : Generated.C08.wsCompareAddHeaders = ["fold:websocket"] := by decide
 theorem websocket_compare_scheme : Generated.C08.wsCompareScheme = ["fold:websocket"] := by decide
 theorem websocket_compare_serveHTTP : Generated.C08.wsCompareServeHTTP = ["fold:websocket"] := by decide
+
+/-- D12d: `protectManagedHeaders` is the last statement of `addHeaders`; it works on the `Connection` header,
+protects the fixed list and the three configured names of `Model.C08.managedKeys`, and reads a token the way
+`httputil.ReverseProxy` does (`tokenKey`). -/
+theorem protect_managed_headers_pinned :
+    Generated.C08.protectIsLastStatement = true ∧
+    Generated.C08.protectHeaderNames = names [connection] ∧
+    Generated.C08.managedHeaders = names (managedKeys {}) ∧
+    Generated.C08.protectConfigNames = ["cfg.ClientIPHeader", "cfg.TLSHeader", "cfg.RequestID"] ∧
+    Generated.C08.protectTokenKey = ["http.CanonicalHeaderKey(textproto.TrimString(tok))"] := by decide
 
 /-- D12: `ServeHTTP` calls `addHeaders(r, p.Config, t.StripPath)` once, and no assignment to `r.Host` (the
 route's `host=` option) precedes it, so the forwarding headers are derived from the Host the client sent —
